@@ -9,18 +9,19 @@ from engine.loader import AnalysisError
 from . import shape as S
 
 META = {
-    'text': 'Abstract interpretation of every built-in printer (list/tuple/set, dict, frozenset, str/bytes incl. its layout-time '
-            'evaluator, int, float, bool) on symbolic values whose type is a *subclass* of the built-in, over all paths (empty, '
-            'depth exhausted, truncated, one element, several; for strings: fits, one piece, several pieces under each multiline '
-            'strategy): (b) every returned document is a call document whose callable is type(value), wrapped around the literal; '
-            '(a) the nativeness flag is computed by identity from type(value), so the interpreter - which models isinstance by '
-            'the subclass relation and "is"/"in" by identity - sees the subclass path; (c) the inner literal never goes through '
-            'an overridable dunder of the value (repr/str/format of the value are violations; the base type\'s __repr__ is '
-            'required); (d) the printed name is built from __module__ and __qualname__ with only builtins/__main__ elided. That '
-            'the subclass constructor accepts the literal is NOT decided.',
+    'text': 'Subclass instances keep their class, decided on interpreted printers (E6, native and subclass scenarios for ev'
+            'ery built-in container and leaf type): (a,b) a subclass instance is printed as Sub(<literal of the built-in va'
+            'lue>) on every path, the literal equals the native rendering, children are dispatched normally, string subclas'
+            "ses through every multiline strategy; (c) the inner literal comes from the base type's own __repr__ (never fro"
+            'm an overridden __repr__/__str__); (d) the class is named by general_identifier, interpreted on model callable'
+            's: module.qualname, with builtins and __main__ elided and nothing else changed; (e) an instance of a subclass '
+            'of an atomic type occurring several times in a value is printed by its printer every time (wrapper model); (f)'
+            ' nothing printed is remembered between values: no write to module-lifetime state from the printing pipeline be'
+            'sides the reasoned allow-list, no mutable default argument written (a cache keyed by == hands a subclass insta'
+            'nce the text of the equal built-in value).',
     'note': 'the interpreter implements the Python subset used by the printers; unknown constructs end in ANALYSIS-ERROR',
-    'technique': 'static analysis: abstract interpretation over a doc-shape domain with type scenarios (path-complete per '
-                 'scenario); syntactic virtual-call rule',
+    'technique': 'static analysis: abstract interpretation of the printers (type scenarios), of general_identifier and of the wr'
+                 'apper; effect inventory',
 }
 
 STRATEGIES = ['MULTILINE_STRATEGY_PLAIN', 'MULTILINE_STRATEGY_HANG', 'MULTILINE_STRATEGY_INDENTED', 'MULTILINE_STRATEGY_PARENS']
